@@ -49,6 +49,8 @@ class Ids:
             return i
         if f == 'str':
             return 'n%03d' % i if i >= 0 else 'm%03d' % (-i)
+        if f == 'ustr':       # non-ASCII text (encodable in latin-1 / cp1252 as well as utf-8)
+            return '\u00e9%03d' % i if i >= 0 else '\u00fc%03d' % (-i)
         if f == 'tuple':
             return (i, 'x')
         if f == 'mixed':
@@ -61,6 +63,10 @@ class Ids:
             return x
         if f == 'str':
             return int(x[1:]) if x[0] == 'n' else -int(x[1:])
+        if f == 'ustr':
+            if x[0] not in '\u00e9\u00fc':
+                raise ValueError('node id %r is not one of the ids that were written' % (x,))
+            return int(x[1:]) if x[0] == '\u00e9' else -int(x[1:])
         if f == 'tuple':
             return x[0]
         if f == 'mixed':
@@ -497,13 +503,37 @@ class Impl:
     def g(self, r):
         return self.R[r]
 
+    # operations that only ask: the graph they are asked about must be left as it was (its nodes and attributes,
+    # timelines, snapshot counters and event log -- the state the properties are anchored in)
+    QUERIES = frozenset(['has', 'nbrs', 'deg', 'inter', 'nodes', 'hasnode', 'nnodes', 'nint', 'size', 'ids', 'ips', 'stream',
+                         'streamchk', 'nodesnaps', 'density', 'deghist', 'isempty', 'nonint', 'avgnodes', 'stat', 'iet',
+                         'tdag', 'trp', 'trpsample', 'alltrp', 'wsnap', 'wint', 'nld', 'wsnaptext', 'winttext',
+                         'slice', 'todir', 'toundir', 'rtsnap', 'rtint', 'rtnl'])
+
+    def _stamp(self, r):
+        G = self.R.get(r)
+        if G is None or not hasattr(G, 'snapshots'):
+            return None
+        try:
+            if len(G._node) > 30 or len(G.snapshots) > 60:      # large graphs: sizes and sums only
+                return (len(G._node), len(G.snapshots), sum(G.snapshots.values()), len(G.time_to_edge),
+                        sum(len(nb) for nb in G._adj.values()))
+            return repr((G._node, G._adj, G.snapshots, G.time_to_edge))
+        except Exception as x:
+            return 'unprintable: %r' % (x,)
+
     def run(self, prog):
         out = []
         for op in prog:
+            q = op[0] in self.QUERIES and len(op) > 1 and not isinstance(op[1], (list, tuple, dict))
+            before = self._stamp(op[1]) if q else None
             try:
-                out.append(self.step(op))
+                res = self.step(op)
             except Exception as x:  # an exception the model cannot express
-                out.append(_exc_name(x))
+                res = _exc_name(x)
+            if q and before is not None and self._stamp(op[1]) != before:
+                res = 'IMPURE-QUERY: %s changed the graph it was asked about' % (op[0],)
+            out.append(res)
         return out
 
     def step(self, op):
@@ -585,10 +615,13 @@ class Impl:
             _, r, sliding, start, delta, ptype, psize, alphas, tabs = op
             G = self.g(r)
             names = ['l%d' % i for i in range(len(tabs))]
+            # label values are opaque categories: strings, ints (0 is a legal class code), '' and () included
+            rep = [lambda v: 'v%d' % v, lambda v: v, lambda v: '' if v == 0 else 'v%d' % v, lambda v: () if v == 0 else (v,)][
+                (sum(len(t) + sum(t.values()) for t in tabs)) % 4]
             for nm, tab in zip(names, tabs):
                 for n, val in tab.items():
                     if I.to(n) in G._node:
-                        G._node[I.to(n)][nm] = 'v%d' % val
+                        G._node[I.to(n)][nm] = rep(val)
             profs = [p for i in range(1, psize + 1) for p in it.combinations(names, i)]
             pidx = {'_'.join(p): i for i, p in enumerate(profs)}
             try:
@@ -952,7 +985,7 @@ def _io_methods():
                 else:
                     lines = [delim.join([str(I.to(u)), str(I.to(v)), o, str(t)]) for (u, v, o, t) in rows]
                 data = ('\n'.join(lines) + ('\n' if lines else '')).encode(enc)
-                ntype = {'int': int, 'str': str}.get(I.family)
+                ntype = {'int': int, 'str': str, 'ustr': str}.get(I.family)
                 fn = D.read_snapshots if k == 'rsnap' else D.read_interactions
                 kw = dict(directed=bool(d), nodetype=ntype, timestamptype=int, delimiter=(None if fmt.get('read_ws') else delim), encoding=enc)
                 if target == 'fileobj':
@@ -1010,7 +1043,7 @@ def _io_methods():
                 self.R[op[2]] = json_graph.node_link_graph(data, directed=bool(op[3]))
                 return 'Done'
             delim, enc, target = fmt.get('delim', ' '), fmt.get('enc', 'utf-8'), fmt.get('target', 'plain')
-            ntype = {'int': int, 'str': str}.get(I.family)
+            ntype = {'int': int, 'str': str, 'ustr': str}.get(I.family)
             wfn = D.write_snapshots if k == 'rtsnap' else D.write_interactions
             rfn = D.read_snapshots if k == 'rtsnap' else D.read_interactions
             kw = dict(directed=G.is_directed(), nodetype=ntype, timestamptype=int, delimiter=delim, encoding=enc)
@@ -1039,7 +1072,7 @@ def _io_methods():
 def _unstr(I, s):
     if I.family == 'int':
         return int(s)
-    if I.family == 'str':
+    if I.family in ('str', 'ustr'):
         return s
     raise ValueError('text formats are exercised with int and str ids only')
 
